@@ -181,7 +181,7 @@ fn decode_debug(bytes: &[u8]) -> String {
 fn scenario(ctx: &Ctx, idx: u64) -> Report {
     let mut report = Report::default();
     let mut rng = ChaCha8Rng::seed_from_u64(sseed(ctx, "codec", idx));
-    let n = ctx.tier.pick(4_000, 320_000);
+    let n = ctx.tier.pick(20_000, 600_000);
     let info = |what: &str, enc: &[u8]| {
         replay_info("C13", "codec", ctx, idx)
             .with("transform", what)
@@ -460,11 +460,11 @@ pub fn check(tier: Tier) -> Check {
         deciding: vec!["C13"],
         streams: vec![Stream::new("codec", 64, scenario)],
         require: vec![
-            ("encode_equal", tier.pick(100_000, 5_000_000)),
-            ("decode_equal", tier.pick(100_000, 5_000_000)),
-            ("permutations_checked", tier.pick(100_000, 5_000_000)),
-            ("unknown_key_variants_checked", tier.pick(100_000, 5_000_000)),
-            ("rejections_checked", tier.pick(100_000, 5_000_000)),
+            ("encode_equal", tier.pick(500_000, 10_000_000)),
+            ("decode_equal", tier.pick(500_000, 10_000_000)),
+            ("permutations_checked", tier.pick(500_000, 10_000_000)),
+            ("unknown_key_variants_checked", tier.pick(500_000, 10_000_000)),
+            ("rejections_checked", tier.pick(500_000, 10_000_000)),
         ],
         exhaustive: false,
     }
